@@ -11,14 +11,26 @@ Lemma outcome_eqb_refl : forall a, outcome_eqb a a = true. Proof. destruct a; re
 Lemma skind_eqb_refl : forall a, skind_eqb a a = true. Proof. destruct a; reflexivity. Qed.
 Lemma call_eqb_refl : forall a, call_eqb a a = true.
 Proof. destruct a; cbn; rewrite ?Z.eqb_refl, ?skind_eqb_refl; reflexivity. Qed.
+Lemma ekind_eqb_refl : forall a, ekind_eqb a a = true. Proof. destruct a; reflexivity. Qed.
+Lemma emode_eqb_refl : forall a, emode_eqb a a = true. Proof. destruct a; reflexivity. Qed.
+Lemma errval_eqb_refl : forall a, errval_eqb a a = true.
+Proof. intros a. unfold errval_eqb. rewrite ekind_eqb_refl, emode_eqb_refl. reflexivity. Qed.
 Lemma logent_eqb_refl : forall a, logent_eqb a a = true.
-Proof. intros a. unfold logent_eqb. rewrite Nat.eqb_refl, Z.eqb_refl, call_eqb_refl, outcome_eqb_refl. reflexivity. Qed.
+Proof.
+  intros a. unfold logent_eqb.
+  rewrite Nat.eqb_refl, Z.eqb_refl, call_eqb_refl, outcome_eqb_refl, errval_eqb_refl. reflexivity.
+Qed.
 Lemma berr_eqb_refl : forall a, berr_eqb a a = true.
-Proof. destruct a; cbn; rewrite ?Z.eqb_refl; reflexivity. Qed.
+Proof. destruct a; cbn; rewrite ?Z.eqb_refl, ?errval_eqb_refl; reflexivity. Qed.
 Lemma bout_eqb_refl : forall a, bout_eqb a a = true.
 Proof. destruct a; cbn; rewrite ?berr_eqb_refl; reflexivity. Qed.
 Lemma eobs_eqb_refl : forall a, eobs_eqb a a = true.
-Proof. intros a. unfold eobs_eqb. rewrite !eqb_reflx. reflexivity. Qed.
+Proof.
+  intros a. unfold eobs_eqb. rewrite !eqb_reflx.
+  assert (H : forall l, list_eqb ekind_eqb l l = true).
+  { induction l as [|x l IH]; cbn; [reflexivity|]. rewrite ekind_eqb_refl, IH. reflexivity. }
+  rewrite H. reflexivity.
+Qed.
 Lemma robs_eqb_refl : forall a, robs_eqb a a = true.
 Proof. destruct a; cbn; rewrite ?eobs_eqb_refl; reflexivity. Qed.
 Lemma tobs_eqb_refl : forall a, tobs_eqb a a = true.
@@ -67,8 +79,6 @@ Proof. intros sc. unfold refusal. destruct (sdead sc); [reflexivity|]. destruct 
 
 Lemma facts_cause_nil : forall c e, e_nil (cause_facts c e) = e_nil e.
 Proof. destruct c; reflexivity. Qed.
-Lemma facts_cause_commit : forall e, e_commit (cause_facts DrvCommit e) = true. Proof. reflexivity. Qed.
-Lemma facts_cause_rollback : forall e, e_rollback (cause_facts DrvRollback e) = true. Proof. reflexivity. Qed.
 
 (* one transaction of the model passes the per-transaction check *)
 Lemma tinv_prop_thread : forall sc st tr iu,
@@ -103,7 +113,8 @@ Proof.
         - unfold end_ok. rewrite Hc. unfold ent_end in He. rewrite Hc in He.
           split; [|split; [reflexivity|split; destruct o, (eout e); discriminate]].
           destruct o as [|b0| |]; cbn [end_call_of is_commit is_rollback];
-            destruct (eout e); cbn; try reflexivity; destruct b0; reflexivity.
+            destruct (eout e); cbn; try reflexivity; try (destruct b0; reflexivity);
+            destruct (eval e) as [[] []]; cbn; try reflexivity; destruct b0; reflexivity.
         - split; [|split; [reflexivity|split; destruct o; discriminate]].
           destruct o as [|b0| |]; cbn; try reflexivity; destruct b0; reflexivity. }
       destruct (Hfin _ eq_refl) as (Hf & Hruns & Hno & Hns). unfold tobs_of in *. cbn [tst tsc tinuse] in *.
@@ -168,8 +179,7 @@ Qed.
 Definition end_meaning (bo : bout) (e : logent) (r : robs) : Prop :=
   (ecall e = CCommit <-> bo = BNil) /\ (ecall e = CRollback <-> bo <> BNil) /\
   (eout e = OFail ->
-     (exists x, r = ORet x /\ e_nil x = false /\
-                (if is_commit (ecall e) then e_commit x else e_rollback x) = true) \/
+     (exists x, r = ORet x /\ e_nil x = false /\ shows x (is_commit (ecall e)) (eval e) = true) \/
      (r = ONever /\ bo = BGoexit)) /\
   (eout e = OPanic -> r = OPanicked).
 
